@@ -66,6 +66,10 @@ def unions(tier):
         for sel in itertools.permutations(OBJECTS, k):
             for disc in ("mapping", "mapping2", "implicit"):
                 out.append({"variants": list(sel), "disc": disc, "nullable": False, "kw": "oneOf"})
+            if k == 2:
+                # nullable discriminated unions (nullable: true next to the discriminator)
+                out.append({"variants": list(sel), "disc": "mapping", "nullable": True, "kw": "oneOf"})
+                out.append({"variants": list(sel), "disc": "mapping", "nullable": True, "kw": "anyOf"})
     return out
 
 
@@ -231,6 +235,7 @@ def run_case(case):
                 if err:
                     m = re.sub(r"'[^']*'", "'*'", err["msg"].split("\n")[0])
                     m = re.sub(r"\d+", "N", m)
+                    m = re.sub(r"Disc[A-Za-z]+", "<Variant>", m)
                     add(f"conforming payload rejected [{shape(u)}]: {err['type']}: {m[:70]}", err["msg"][:200])
                     continue
                 back = d["back"]
